@@ -519,6 +519,7 @@ impl Engine for Clones {
 
     fn generate(rng: &mut Rng, _tier: Tier) -> Case {
         let mut f = Features::swarm(rng);
+        f.immediates = rng.chance(1, 4);
         f.errors = *rng.pick(&[0, 0, 10, 30]);
         // bias toward shared-structure mutation
         if rng.chance(1, 2) {
